@@ -21,7 +21,8 @@ RULE = ("every bpf() map syscall the library issues while running the C09 "
         "reads/writes; Dict set/get/del/pop/iteration/values on random "
         "Key/Value layouts, plain and LRU) and a per-CPU workload (maps "
         "created and read under the full and under narrowed CPU affinity "
-        "masks) is "
+        "masks; several instances of one program class with different "
+        "sub-program sets read in random order) is "
         "intercepted at ebpfcat.bpf.bpf; the size of the Python object behind "
         "each key/value/next-key pointer (recorded at addrof/addressof/"
         "c_char.from_buffer) is compared with the map geometry recorded at "
@@ -49,6 +50,9 @@ def classify(v):
     if cmd == "LOOKUP" and v.get("map_type") == "HASH" and \
             v.get("key_size") == 1 and v.get("value_size") == 8:
         return "hash-variable-read-buffer-sized-by-format"
+    if cmd == "LOOKUP" and v.get("map_type") == "PERCPU_ARRAY" and \
+            v.get("workload") == "percpu-instances":
+        return "unexplained:percpu-read-sized-by-another-instance"
     if cmd == "GET_NEXT_KEY":
         return "unexplained:get-next-key " + v["problem"][:40]
     return f"unexplained:{cmd} {v.get('map_type')}"
@@ -67,6 +71,7 @@ def absorb(mon, res, what):
             res.sample(dict(c, workload=what))
     res.count("unknown_provenance", mon.unknown)
     for v in mon.violations:
+        v = dict(v, workload=what)
         res.violation(classify(v), f"{v['problem']}: {v}", case=v)
 
 
@@ -108,6 +113,49 @@ def percpu_workload(res, rng):
             ld.close()
 
 
+def percpu_instances_workload(res, rng):
+    """several instances of ONE program class with different sub-program
+    sets share the class's map descriptor; each instance's read must be
+    sized for its own kernel map"""
+    from ebpfcat.ebpf import SubProgram
+    with kern.session() as sess:
+        pm = PerCPUArrayMap()
+        sub_ns = {"program": lambda self: None}
+        for i in range(rng.randint(1, 4)):
+            sub_ns[f"s{i}"] = pm.globalVar(rng.choice("BHIQq"))
+        Sub = type("VfSub", (SubProgram,), sub_ns)
+        ns = {"license": "GPL", "pm": pm, "c": pm.globalVar("I")}
+
+        def program(self):
+            self.c = 7
+            self.r0 = 2
+            self.exit()
+        ns["program"] = program
+        P = type("VfPCI", (XDP,), ns)
+        counts = [rng.randint(0, 3) for _ in range(3)]
+        if len(set(counts)) == 1:
+            counts[0] += 1
+        lds = []
+        with sysmon.Monitor(sess) as mon:
+            insts = []
+            for n in counts:
+                e = P(subprograms=[Sub() for _ in range(n)])
+                ld = prog.Loaded(e, sess)
+                ld.load()
+                lds.append(ld)
+                insts.append(e)
+            order = list(range(len(insts)))
+            rng.shuffle(order)
+            for i in order:
+                lds[i].run_k(bytes(64))
+                insts[i].pm.read()
+                _ = [insts[i].c[k] for k in range(len(insts[i].c))]
+        res.count("percpu_instance_reads", len(insts))
+        absorb(mon, res, "percpu-instances")
+        for ld in lds:
+            ld.close()
+
+
 def run_shard(params):
     res = Result()
     if params.get("valgrind"):
@@ -122,6 +170,8 @@ def run_shard(params):
         absorb(c09.check_dict(c09.gen_dict_case(rng), scratch, monitor=True),
                res, "dict")
     percpu_workload(res, rng)
+    for _ in range(3):
+        percpu_instances_workload(res, rng)
     res.count("workload_model_mismatches (C09's business)",
               len(scratch.violations))
     return res
